@@ -103,18 +103,18 @@ pub fn run(tier: Tier, seed: u64) -> ! {
     let mut a = Acc::default();
     kernel::kernel_matrix(&mut a);
     a.merge_into(&mut rep);
-    let chunks: u64 = tier.pick(64, 2000);
+    let chunks: u64 = tier.pick(160, 2000);
     let per_chunk: usize = tier.pick(3125, 5000);
     par_cases(&mut rep, chunks, |acc, c| kernel::kernel_random(acc, seed, c, per_chunk));
 
     mark!("kernels");
     // (b) exact search
-    par_cases(&mut rep, tier.pick(5000, 100_000), |acc, c| kernel::brute_case(acc, seed, c));
+    par_cases(&mut rep, tier.pick(12_000, 100_000), |acc, c| kernel::brute_case(acc, seed, c));
 
     mark!("brute_force");
     // (d) quantisers
-    par_cases(&mut rep, tier.pick(2000, 60_000), |acc, c| quant::scalar_case(acc, seed, c));
-    par_cases(&mut rep, tier.pick(3000, 200_000), |acc, c| quant::binary_case(acc, seed, c));
+    par_cases(&mut rep, tier.pick(5000, 60_000), |acc, c| quant::scalar_case(acc, seed, c));
+    par_cases(&mut rep, tier.pick(8000, 200_000), |acc, c| quant::binary_case(acc, seed, c));
     par_cases(&mut rep, tier.pick(600, 20_000), |acc, c| quant::product_case(acc, seed, c, tier == Tier::Thorough || c % 10 == 0));
 
     mark!("quantisers");
@@ -124,12 +124,12 @@ pub fn run(tier: Tier, seed: u64) -> ! {
     index::reinsert_probe(&mut a);
     a.merge_into(&mut rep);
     let long = tier == Tier::Thorough;
-    par_cases(&mut rep, tier.pick(20_000, 300_000), |acc, c| index::history_case(acc, seed, c, false, long || c % 8 == 0));
-    par_cases(&mut rep, tier.pick(8000, 120_000), |acc, c| index::history_case(acc, seed, c, true, long || c % 8 == 0));
+    par_cases(&mut rep, tier.pick(50_000, 300_000), |acc, c| index::history_case(acc, seed, c, false, long || c % 8 == 0));
+    par_cases(&mut rep, tier.pick(20_000, 120_000), |acc, c| index::history_case(acc, seed, c, true, long || c % 8 == 0));
 
     mark!("index_histories");
     // (e) engine
-    par_cases(&mut rep, tier.pick(1500, 20_000), |acc, c| engine::engine_case(acc, seed, c));
+    par_cases(&mut rep, tier.pick(4000, 20_000), |acc, c| engine::engine_case(acc, seed, c));
 
     mark!("engine");
     // informational only (never part of a verdict)
